@@ -116,7 +116,7 @@ def validate(pid, traces, tag, verdicts, shards=8):
                 if k == 0:
                     small = {kk: e[kk] for kk in e if kk != "q"}
                     small["q"] = []
-                    verdicts.add("cal/projection/" + e.get("kind", ""), "calendar %s: is_bus_day / is_settlement of the %s is not the union of its individually built parts" % (e.get("key"), e.get("kind")), {"event": small, "engine": "cal"}, src=p)
+                    verdicts.add("cal/projection/" + e.get("kind", ""), "calendar %s: is_bus_day / is_settlement of the %s is not what its holiday lists and week masks define (a Cal against the list and mask it was built from, a union against its individually built parts)" % (e.get("key"), e.get("kind")), {"event": small, "engine": "cal"}, src=p)
                     nviol += 1
                     continue
                 q = e["q"][k - 1]
